@@ -5,7 +5,16 @@ use sea_query::extension::mysql::*;
 use sea_query::extension::postgres::*;
 use sea_query::extension::sqlite::*;
 use sea_query::*;
+use std::sync::atomic::{AtomicBool, Ordering};
 use std::sync::OnceLock;
+
+/// `--lite` (set once in `main` before any thread exists): the same nested shapes with far
+/// fewer leaves, for Miri, which interprets this program ~4 orders of magnitude slower.
+pub static LITE: AtomicBool = AtomicBool::new(false);
+
+pub fn lite() -> bool {
+    LITE.load(Ordering::Relaxed)
+}
 
 #[derive(Iden, Clone, Copy, Debug)]
 pub enum G {
@@ -139,6 +148,9 @@ pub fn value_strings(v: &Value) -> String {
 
 pub fn case_stmt() -> CaseStatement {
     let p = pool();
+    if lite() {
+        return CaseStatement::new().case(Expr::col((p.t.clone(), p.a.clone())).is_in([1, 2]), Expr::val("small")).finally(Expr::col(p.c.clone()));
+    }
     CaseStatement::new()
         .case(
             Cond::any()
@@ -153,6 +165,10 @@ pub fn case_stmt() -> CaseStatement {
 pub fn window() -> WindowStatement {
     let p = pool();
     let mut w = WindowStatement::partition_by((p.t.clone(), p.b.clone()));
+    if lite() {
+        w.order_by(p.a.clone(), Order::Desc).frame_start(FrameType::Rows, Frame::UnboundedPreceding);
+        return w;
+    }
     w.add_partition_by(Expr::col(p.c.clone()).into())
         .order_by(p.a.clone(), Order::Desc)
         .order_by_with_nulls((p.t.clone(), p.c.clone()), Order::Asc, NullOrdering::First)
@@ -166,13 +182,30 @@ pub fn small_select() -> SelectStatement {
     q.column((p.t.clone(), p.a.clone()))
         .expr_as(Func::max(Expr::col(p.b.clone())), p.alias.clone())
         .from((p.schema.clone(), p.t.clone()))
-        .and_where(Expr::col(p.a.clone()).between(1, 100))
-        .and_where(Expr::col((p.t.clone(), p.c.clone())).is_not_in(["u", "v"]))
-        .group_by_col((p.t.clone(), p.a.clone()));
+        .and_where(Expr::col(p.a.clone()).between(1, 100));
+    if !lite() {
+        q.and_where(Expr::col((p.t.clone(), p.c.clone())).is_not_in(["u", "v"])).group_by_col((p.t.clone(), p.a.clone()));
+    }
     q
 }
 
+/// Lite condition: ALL(<> string, <> json, ANY(IN (subquery), NOT ALL(LIKE .. ESCAPE, IS NOT NULL))).
+fn lite_condition() -> Condition {
+    let p = pool();
+    Cond::all()
+        .add(Expr::col((p.t.clone(), p.a.clone())).ne("it's"))
+        .add(Expr::col(p.c.clone()).ne(Value::Json(b(serde_json::json!({"k": [1, null]})))))
+        .add(
+            Cond::any()
+                .add(Expr::col(p.a.clone()).in_subquery(small_select()))
+                .add(Cond::all().not().add(Expr::col(p.b.clone()).like(LikeExpr::new("a!%%").escape('!'))).add(Expr::col(p.c.clone()).is_not_null())),
+        )
+}
+
 pub fn big_condition() -> Condition {
+    if lite() {
+        return lite_condition();
+    }
     let p = pool();
     let vals = all_values_some();
     let mut c = Cond::all();
@@ -198,7 +231,25 @@ pub fn big_condition() -> Condition {
     .add(Expr::col(p.c.clone()).cast_as(Alias::new("text")).eq(Expr::col(p.a.clone()).as_enum(p.alias.clone())))
 }
 
+/// Lite variant of `big_select`: CASE projection, join, nested condition with IN (subquery),
+/// ORDER BY with NULLS, LIMIT (window, CTE, union have their own rows).
+fn lite_select() -> SelectStatement {
+    let p = pool();
+    let mut q = Query::select();
+    q.column((p.t.clone(), p.a.clone()))
+        .expr_as(case_stmt(), p.alias.clone())
+        .from(p.t.clone())
+        .join(JoinType::LeftJoin, F::Table, Expr::col((F::Table, F::Id)).equals((p.t.clone(), p.b.clone())))
+        .cond_where(big_condition())
+        .order_by_with_nulls((p.t.clone(), p.a.clone()), Order::Desc, NullOrdering::Last)
+        .limit(10);
+    q
+}
+
 pub fn big_select() -> SelectStatement {
+    if lite() {
+        return lite_select();
+    }
     let p = pool();
     let mut q = Query::select();
     q.distinct()
@@ -278,6 +329,10 @@ pub fn select_sqlite_ext() -> SelectStatement {
 pub fn on_conflict() -> OnConflict {
     let p = pool();
     let mut oc = OnConflict::columns([p.a.clone(), p.b.clone()]);
+    if lite() {
+        oc.update_column(p.b.clone()).value(p.a.clone(), Expr::col(p.a.clone()).add(1));
+        return oc;
+    }
     oc.target_and_where(Expr::col(p.c.clone()).is_not_null())
         .update_columns([p.b.clone(), p.c.clone()])
         .value(p.a.clone(), Expr::col(p.a.clone()).add(1))
@@ -287,12 +342,18 @@ pub fn on_conflict() -> OnConflict {
 
 pub fn returning() -> ReturningClause {
     let p = pool();
+    if lite() {
+        return Query::returning().columns([p.a.clone(), p.b.clone()]);
+    }
     Query::returning().exprs([Expr::col(p.a.clone()).into(), Expr::col(p.b.clone()).add(1), SimpleExpr::from(Func::upper(Expr::col(p.c.clone())))])
 }
 
 pub fn big_insert() -> InsertStatement {
     let p = pool();
-    let vals = all_values_some();
+    let mut vals = all_values_some();
+    if lite() {
+        vals.retain(|v| matches!(v, Value::String(_) | Value::Uuid(_) | Value::Array(..)));
+    }
     let n = vals.len();
     let cols: Vec<DynIden> = (0..n)
         .map(|i| match i % 3 {
@@ -304,10 +365,11 @@ pub fn big_insert() -> InsertStatement {
     let mut q = Query::insert();
     q.into_table((p.schema.clone(), p.t.clone()))
         .columns(cols)
-        .values_panic(vals.iter().cloned().map(SimpleExpr::from))
-        .values_panic(vals.iter().map(|v| SimpleExpr::from(v.as_null())))
-        .on_conflict(on_conflict())
-        .returning(returning());
+        .values_panic(vals.iter().cloned().map(SimpleExpr::from));
+    if !lite() {
+        q.values_panic(vals.iter().map(|v| SimpleExpr::from(v.as_null())));
+    }
+    q.on_conflict(on_conflict()).returning(returning());
     q
 }
 
@@ -328,7 +390,7 @@ pub fn big_update() -> UpdateStatement {
     q.table((p.schema.clone(), p.t.clone()))
         .value(p.a.clone(), Expr::col(p.a.clone()).add(1))
         .value(p.b.clone(), case_stmt())
-        .values(all_values_some().into_iter().take(6).map(|v| (p.c.clone(), SimpleExpr::from(v))))
+        .values(all_values_some().into_iter().take(if lite() { 1 } else { 6 }).map(|v| (p.c.clone(), SimpleExpr::from(v))))
         .cond_where(big_condition())
         .order_by(p.a.clone(), Order::Asc)
         .limit(3)
@@ -368,6 +430,10 @@ pub fn with_clause() -> WithClause {
         .columns([p.a.clone(), Alias::new("depth").into_iden()])
         .query(base.clone().union(UnionType::All, rec).to_owned());
     let mut w = Query::with();
+    if lite() {
+        w.recursive(true).cte(walk);
+        return w;
+    }
     w.recursive(true)
         .cte(walk)
         .search(Search::new_from_order_and_expr(SearchOrder::DEPTH, SelectExpr { expr: Expr::col(p.a.clone()).into(), alias: Some(Alias::new("ord").into_iden()), window: None }))
@@ -501,11 +567,14 @@ pub fn table_create() -> TableCreateStatement {
         .comment("tbl 'c'")
         .col(ColumnDef::new(G::Id).integer().not_null().auto_increment().primary_key())
         .col(column_def())
-        .col(ColumnDef::new(p.b.clone()).string_len(40).null().default("x'y"))
-        .col(ColumnDef::new(p.c.clone()).decimal_len(10, 3).default(Expr::val(1.5)).check(Expr::col(p.c.clone()).gte(0)))
-        .col(ColumnDef::new(G::Image).json_binary().generated(Expr::col(p.b.clone()), true))
-        .col(ColumnDef::new(F::Language).timestamp_with_time_zone().default(Expr::current_timestamp()))
-        .col(ColumnDef::new(F::Name).custom(p.alias.clone()).default(Keyword::Null))
+        .col(ColumnDef::new(p.b.clone()).string_len(40).null().default("x'y"));
+    if !lite() {
+        t.col(ColumnDef::new(p.c.clone()).decimal_len(10, 3).default(Expr::val(1.5)).check(Expr::col(p.c.clone()).gte(0)))
+            .col(ColumnDef::new(G::Image).json_binary().generated(Expr::col(p.b.clone()), true))
+            .col(ColumnDef::new(F::Language).timestamp_with_time_zone().default(Expr::current_timestamp()))
+            .col(ColumnDef::new(F::Name).custom(p.alias.clone()).default(Keyword::Null));
+    }
+    t
         .index(Index::create().name("ix_inline").col(p.b.clone()).col(p.c.clone()).unique())
         .foreign_key(&mut fk_create())
         .check(Expr::col(p.b.clone()).ne(Expr::col(p.c.clone())))
